@@ -2,7 +2,7 @@
  * (DESIGN §3 C17).  vx --explore: histories of free choices over
  *   { load+save, load, edit(f), touch(f), set mtime of f earlier/equal/later than main.b, same for the two binaries,
  *     delete binary, touch simul_efun + restart stamp, bump driver_id }
- * on a private copy of the dependency graph  main.c -> a.h -> b.h,  main.c inherits base.c (-> c.h) [and base2.c],
+ * on a private copy of the dependency graph  main.c -> a.h -> b.h,  main.c inherits base.c (-> c.h) which inherits deep.c [and base2.c],
  * main.c uses a simul_efun.  Times are explicit (utimensat + virtual clock): nothing sleeps.
  *
  * Oracle at every load and at the end of every history:
@@ -23,10 +23,10 @@ extern void vw_c17_set_driver_id (unsigned);
 extern unsigned long long vw_c17_config_id (void);
 extern void init_binaries (void);
 
-enum { F_MAIN, F_AH, F_BH, F_BASE, F_CH, F_BASE2, F_SEFUN, NSRC };
-static const char *src_name[NSRC] = { "c17/main.c", "c17/a.h", "c17/b.h", "c17/base.c", "c17/c.h", "c17/base2.c", "simul_efun.c" };
-enum { B_MAIN, B_BASE, B_BASE2, NBIN };
-static const char *bin_name[NBIN] = { "c17bin/c17/main.b", "c17bin/c17/base.b", "c17bin/c17/base2.b" };
+enum { F_MAIN, F_AH, F_BH, F_BASE, F_CH, F_BASE2, F_SEFUN, F_DEEP, NSRC };
+static const char *src_name[NSRC] = { "c17/main.c", "c17/a.h", "c17/b.h", "c17/base.c", "c17/c.h", "c17/base2.c", "simul_efun.c", "c17/deep.c" };
+enum { B_MAIN, B_BASE, B_BASE2, B_DEEP, NBIN };
+static const char *bin_name[NBIN] = { "c17bin/c17/main.b", "c17bin/c17/base.b", "c17bin/c17/base2.b", "c17bin/c17/deep.b" };
 
 static char libdir[PATH_MAX], root[PATH_MAX];
 static int prog_variant, depth = 3, selftest, verbose, ops_full = 1;
@@ -66,8 +66,13 @@ static void gen_text (int f, int v, char *out, size_t n) {
     for (int i = 0; i < v; i++) P ("int c_pad_%d = %d;\nint c_fn_%d() { return %d; }\n", i, i, i, i);     /* an edit changes the layout of whoever includes it */
     break;
   case F_BASE:
-    P ("#pragma save_binary\n#include \"c.h\"\nint base_var = C_CONST;\nint base_fn(int a) { return a + C_CONST + %d; }\nstring base_tag() { return \"base-v%d\"; }\n", v * 10, v);
+    /* base.c inherits deep.c: main.c -> base.c -> deep.c is a chain of three programs */
+    P ("#pragma save_binary\ninherit \"/c17/deep\";\n#include \"c.h\"\nint base_var = C_CONST;\nint base_fn(int a) { return a + C_CONST + %d + deep_fn(a); }\nstring base_tag() { return \"base-v%d\" + deep_tag(); }\n", v * 10, v);
     P ("int shared(int q) { return q + 1; }\n");
+    break;
+  case F_DEEP:
+    P ("#pragma save_binary\nint deep_var = %d;\nint deep_fn(int a) { return a * %d + deep_var; }\nstring deep_tag() { return \"-deep%d\"; }\n", 40 + v, 2 + v, v);
+    for (int i = 0; i < v; i++) P ("int deep_pad_%d = %d;\n", i, i);     /* an edit changes the variable layout of everything that inherits it */
     break;
   case F_BASE2:
     P ("#pragma save_binary\nint base2_var = %d;\nint base2_fn() { return base2_var * 2; }\nint shared(int q) { return q + 2; }\n", 5 + v); break;
@@ -136,10 +141,15 @@ static const char *stale_reason (int b) {
   if (!bin_exists[b]) return "no-binary";
   if (bin_drv[b] != vw_c17_driver_id ()) return "driver-id-changed";
   if (bin_ver[b][F_SEFUN] != sefun_epoch) return "simul_efun-changed";
-  int deps_main[] = { F_MAIN, F_AH, F_BH, -1 }, deps_base[] = { F_BASE, F_CH, -1 }, deps_base2[] = { F_BASE2, -1 };
-  int *own = b == B_MAIN ? deps_main : b == B_BASE ? deps_base : deps_base2;
+  int deps_main[] = { F_MAIN, F_AH, F_BH, -1 }, deps_base[] = { F_BASE, F_CH, -1 }, deps_base2[] = { F_BASE2, -1 }, deps_deep[] = { F_DEEP, -1 };
+  int *own = b == B_MAIN ? deps_main : b == B_BASE ? deps_base : b == B_DEEP ? deps_deep : deps_base2;
   for (int i = 0; own[i] >= 0; i++) if (mt[own[i]] > t) { snprintf (why, sizeof why, "%s-newer", own[i] == F_MAIN || own[i] == F_BASE || own[i] == F_BASE2 ? "source" : "include"); return why; }
+  if (b == B_BASE && !keep_inherited) {
+    if (mt[F_DEEP] > t) return "inherited-source-newer";
+    if (bin_exists[B_DEEP] && bin_mt[B_DEEP] > t) return "inherited-binary-newer";
+  }
   if (b == B_MAIN && !keep_inherited) {
+    if (mt[F_DEEP] > t) return "inherited-source-newer";             /* two levels up: what base.c inherits */
     for (int i = 0; deps_base[i] >= 0; i++) if (mt[deps_base[i]] > t) { snprintf (why, sizeof why, "inherited-%s-newer", deps_base[i] == F_BASE ? "source" : "include"); return why; }
     if (bin_exists[B_BASE] && bin_mt[B_BASE] > t) return "inherited-binary-newer";
     if (FEAT (5)) {
@@ -184,15 +194,19 @@ static char *results (object_t *ob) {
   return buf;
 }
 
+static void dump_inherits (program_t *p, char **d, size_t *n, int level) {
+  for (int i = 0; i < p->num_inherited && level < 4; i++) {
+    char *e = pd_dump (p->inherit[i].prog, 0);
+    *d = realloc (*d, *n + strlen (e) + 40);
+    *n += (size_t) sprintf (*d + *n, "---- inherit %d at level %d\n%s", i, level, e);
+    free (e);
+    dump_inherits (p->inherit[i].prog, d, n, level + 1);
+  }
+}
 static char *all_dumps (object_t *ob) {
   char *d = pd_dump (ob->prog, 0);
   size_t n = strlen (d);
-  for (int i = 0; i < ob->prog->num_inherited; i++) {
-    char *e = pd_dump (ob->prog->inherit[i].prog, 0);
-    d = realloc (d, n + strlen (e) + 20);
-    n += (size_t) sprintf (d + n, "---- inherit %d\n%s", i, e);
-    free (e);
-  }
+  dump_inherits (ob->prog, &d, &n, 1);
   return d;
 }
 
@@ -201,8 +215,8 @@ static int loads_done, binary_loads, backdated_use;
 /* content of a dependency changed after binary b was built, yet its time stamp is not newer (set back explicitly):
  * the property speaks about edits whose modification time is the time of the edit, so such a world is outside its domain */
 static int built_from_other_content (int b) {
-  int deps_main[] = { F_MAIN, F_AH, F_BH, F_BASE, F_CH, F_BASE2, -1 }, deps_base[] = { F_BASE, F_CH, -1 }, deps_base2[] = { F_BASE2, -1 };
-  int *d = b == B_MAIN ? deps_main : b == B_BASE ? deps_base : deps_base2;
+  int deps_main[] = { F_MAIN, F_AH, F_BH, F_BASE, F_CH, F_BASE2, F_DEEP, -1 }, deps_base[] = { F_BASE, F_CH, F_DEEP, -1 }, deps_base2[] = { F_BASE2, -1 }, deps_deep[] = { F_DEEP, -1 };
+  int *d = b == B_MAIN ? deps_main : b == B_BASE ? deps_base : b == B_DEEP ? deps_deep : deps_base2;
   for (int i = 0; d[i] >= 0; i++) if (bin_ver[b][d[i]] != ver[d[i]]) return 1;
   return 0;
 }
@@ -220,7 +234,7 @@ static object_t *do_load (int save, const char *why) {
   loads_done++;
   if (!ob) { vx_fail ("C17:load-failed", "%s: main does not load: %s", why, hx_last_error); return 0; }
   /* which binaries were used: the .b was opened and the source was not */
-  static const char *srcs[NBIN] = { "c17/main.c", "c17/base.c", "c17/base2.c" };
+  static const char *srcs[NBIN] = { "c17/main.c", "c17/base.c", "c17/base2.c", "c17/deep.c" };
   for (int b = 0; b < NBIN; b++) {
     if (b == B_BASE2 && !FEAT (5)) continue;
     int used = was_opened (bin_name[b]) && !was_opened (srcs[b]);
@@ -299,18 +313,21 @@ static void compare_with_fresh (object_t *ob, const char *why) {
 
 /* ------------------------------------------------------------------ operations */
 typedef struct { int kind, a, b; char name[40]; } op_t;
-enum { O_RELOADMAIN = 20, O_LOADSAVE = 0, O_LOAD, O_EDIT, O_TOUCH, O_SETREL, O_BINREL, O_DELBIN, O_SEFUN, O_DRIVERID };
+enum { O_RELOADMAIN = 20, O_FAILCOMPILE = 21, O_LOADSAVE = 0, O_LOAD, O_EDIT, O_TOUCH, O_SETREL, O_BINREL, O_DELBIN, O_SEFUN, O_DRIVERID };
+static int last_failed;        /* the previous operation was a compile that failed (leaves nothing behind in the model) */
 static op_t ops[64]; static int nops;
 static void add_op (int kind, int a, int b, const char *fmt, ...) { va_list ap; op_t *o = &ops[nops++]; o->kind = kind; o->a = a; o->b = b; va_start (ap, fmt); vsnprintf (o->name, sizeof o->name, fmt, ap); va_end (ap); }
-static const char *shortn (int f) { static const char *n[] = { "main.c", "a.h", "b.h", "base.c", "c.h", "base2.c", "simul_efun.c" }; return n[f]; }
+static const char *shortn (int f) { static const char *n[] = { "main.c", "a.h", "b.h", "base.c", "c.h", "base2.c", "simul_efun.c", "deep.c" }; return n[f]; }
 
 static void build_ops (void) {
   static const char *rel[] = { "earlier", "equal", "later" };
   add_op (O_LOADSAVE, 0, 0, "load+save");
   add_op (O_LOAD, 0, 0, "load");
   add_op (O_RELOADMAIN, 0, 0, "reload(main only)");
+  add_op (O_FAILCOMPILE, 0, 0, "load(unrelated broken file) fails");
   int files[] = { F_MAIN, F_AH, F_BH, F_BASE, F_CH };
   for (int i = 0; i < 5; i++) add_op (O_EDIT, files[i], 0, "edit(%s)", shortn (files[i]));
+  add_op (O_EDIT, F_DEEP, 0, "edit(deep.c)");
   add_op (O_DELBIN, B_MAIN, 0, "delete(main.b)");
   add_op (O_DELBIN, B_BASE, 0, "delete(base.b)");
   if (ops_full) {
@@ -333,7 +350,15 @@ static void advance_clock (void) {
 static void apply_op (op_t *o, int step) {
   char why[80]; snprintf (why, sizeof why, "step %d %s", step, o->name);
   advance_clock ();
+  int failed_now = 0;
   switch (o->kind) {
+  case O_FAILCOMPILE: {
+    /* a file that has nothing to do with main and does not compile: the load fails, nothing else changes */
+    object_t *ob = hx_load ("c17/broken", 0);
+    if (ob) vx_fail ("C17:harness:broken-file-loads", "%s: c17/broken.c loaded", why);
+    failed_now = 1;
+    break;
+  }
   case O_LOADSAVE: case O_LOAD: case O_RELOADMAIN: {
     /* reload(main only): the inherited programs stay as they are in memory (if any are loaded) */
     keep_inherited = (o->kind == O_RELOADMAIN && find_object_by_name ("c17/base") != 0);
@@ -360,6 +385,7 @@ static void apply_op (op_t *o, int step) {
     break;
   case O_DRIVERID: vw_c17_set_driver_id (vw_c17_driver_id () + 1); driver_bumped = 1; break;
   }
+  last_failed = failed_now;
   if (o->kind == O_DRIVERID || o->kind == O_SEFUN) {
     /* binaries written from now on carry the new stamps; existing ones are stale by the predicate until rewritten */
   }
@@ -378,13 +404,14 @@ static void body (void) {
   mkdir ("c17", 0755); mkdir ("c17bin", 0755); mkdir ("c17bin/c17", 0755);
   now_t = hx_clock = 1000000000; current_time = now_t;
   for (int f = 0; f < NSRC; f++) { ver[f] = 0; mt[f] = now_t - 1000 + f; write_src (f); }
-  sefun_epoch = 0;
+  sefun_epoch = 0; last_failed = 0;
+  { FILE *bf = fopen ("c17/broken.c", "w"); if (bf) { fputs ("int ok() { return 1; }\nint broken( { return 2; }\n", bf); fclose (bf); } }
   init_binaries ();
   for (int step = 0; step < depth; step++) {
     long all[NSRC + NBIN]; int n = 0, k;
     for (int f = 0; f < NSRC; f++) all[n++] = mt[f];
     for (int b = 0; b < NBIN; b++) all[n++] = bin_exists[b] ? bin_mt[b] : -1;
-    k = snprintf (canon, sizeof canon, "p%d s%d d%d e%d|", prog_variant, step, driver_bumped, sefun_epoch);
+    k = snprintf (canon, sizeof canon, "p%d s%d d%d e%d x%d|", prog_variant, step, driver_bumped, sefun_epoch, last_failed);
     for (int f = 0; f < NSRC; f++) k += snprintf (canon + k, sizeof canon - (size_t) k, "%d@%d,", ver[f], rank_of (mt[f], all, n));
     for (int b = 0; b < NBIN; b++) {
       k += snprintf (canon + k, sizeof canon - (size_t) k, "|%d@%d%s:", bin_exists[b], bin_exists[b] ? rank_of (bin_mt[b], all, n) : -1, bin_exists[b] && bin_drv[b] != vw_c17_driver_id () ? "old-id" : "");
@@ -401,6 +428,7 @@ static void body (void) {
   if (ob) compare_with_fresh (ob, "final load");
   vx_count (1, loads_done); vx_count (2, binary_loads);
   for (int f = 0; f < NSRC; f++) unlink (src_name[f]);
+  unlink ("c17/broken.c");
   for (int b = 0; b < NBIN; b++) unlink (bin_name[b]);
   rmdir ("c17bin/c17"); rmdir ("c17bin"); rmdir ("c17");
   if (chdir (libdir)) {}
